@@ -167,6 +167,13 @@ def run_unit_once(unit_name, canary=None, extra=(), suffix='', timeout=600, adde
         # (e.g. `&mut &str`) that obligation cannot be met: a tool limit, not a panic of format!
         res['status'] = 'undecided'
         res['reason'] = 'a formatting macro is applied to a value whose Display/Debug implementation the shims do not model (vstd fmt precondition)'
+    elif real and any(i.get('novel_vocabulary') for i in built['functions'].values()):
+        # the changed text calls things the pinned text of the same function does not (a refactoring through other APIs,
+        # new closures): their shim contracts may say less than the code they replace (an un-annotated closure says nothing),
+        # so a failed obligation cannot be told from lost information -- the bounded search has to decide
+        nv = sorted(set(x for i in built['functions'].values() for x in i.get('novel_vocabulary', [])))
+        res['status'] = 'undecided'
+        res['reason'] = 'the changed function text uses calls / closures the pinned text does not (%s) and an obligation is no longer discharged: cannot tell a broken property from information lost in a weaker shim contract' % ', '.join(nv)[:300]
     elif real and res['lost_anchors']:
         res['status'] = 'undecided'
         res['reason'] = 'proof hints lost their anchors (%s) and the proof no longer goes through; cannot tell a broken property from a lost hint' % '; '.join(res['lost_anchors'])[:600]
